@@ -23,7 +23,7 @@ RULE = ('(ii) for every mutating operation of a table of ~30 operations (all sto
         'must work. evaluations = invariant evaluations; distinct_nontrivial = distinct (operation, gate kind, '
         'position, persistent) failpoints + distinct unencodable cases')
 DISTINCT = ('failpoints', 'unencodable_cases', 'concurrent_schedules')
-REQUIRED = ('failpoints_injected', 'ops_with_all_gates_enumerated', 'unencodable_values', 'lock_timeouts',
+REQUIRED = ('lazy_culls_mixing_expiry_and_eviction', 'failpoints_injected', 'ops_with_all_gates_enumerated', 'unencodable_values', 'lock_timeouts',
             'history_calls', 'concurrent_programs', 'failures_after_file_written', 'expired_file_row_paths',
             'failures_injected_into_concurrent_programs', 'handles_opened_during_concurrent_programs',
             'timeouts_under_commit_contention',
@@ -275,6 +275,52 @@ def expired_file_rows(dc, sc, res, shard, nshards):
                 cache.close()
                 probe.set_clock(None)
                 sc.drop(d)
+
+
+# ------------------------- one lazy cull that removes expired items AND evicts by policy, values in files
+def mixed_culls(dc, sc, res, shard, nshards):
+    """A write whose lazy cull first removes k expired items (0 < k < cull_limit) and then, the cache still being over
+    its limit, evicts by policy: rows, counters and files must agree afterwards, whatever the split."""
+    n = 0
+    for policy in ('least-recently-stored', 'least-recently-used', 'least-frequently-used'):
+        for cull_limit in (2, 3, 10):
+            for k in sorted({1, cull_limit - 1, cull_limit // 2} - {0}):
+                for write in ('set', 'add', 'incr', 'push', 'setitem'):
+                    n += 1
+                    if n % nshards != shard:
+                        continue
+                    d = sc.new()
+                    clock = probe.set_clock(probe.VClock())
+                    cache = dc.Cache(d, disk_min_file_size=T, cull_limit=cull_limit, eviction_policy=policy)
+                    obs = observe.Observer(d)
+                    try:
+                        for i in range(14):
+                            cache.set('lasting-%d' % i, BIGS if i % 2 else BIGB)
+                        for i in range(k):
+                            cache.set('expiring-%d' % i, BIGB, expire=2.0)      # (no expired rows yet: nothing is culled)
+                        clock.advance(5.0)
+                        cache.reset('size_limit', 1024)
+                        before = len(cache)
+                        {'set': lambda: cache.set('w', BIGS), 'add': lambda: cache.add('w', BIGB),
+                         'incr': lambda: cache.incr('w'), 'push': lambda: cache.push(BIGS),
+                         'setitem': lambda: cache.__setitem__('w', BIGB)}[write]()
+                        removed = before + 1 - len(cache)
+                        res.count('lazy_culls_mixing_expiry_and_eviction')
+                        res.count('evaluations')
+                        wit = {'policy': policy, 'cull_limit': cull_limit, 'expired_rows': k, 'write': write, 'removed': removed}
+                        if removed != cull_limit:
+                            res.violation('a %s with %d expired rows, cull_limit %d and the cache far over its limit removed %d items'
+                                          % (write, k, cull_limit, removed), wit)
+                            continue
+                        problems = quiescent_problems(dc, cache, d, obs)
+                        if problems:
+                            res.violation('%s whose lazy cull removed %d expired rows and evicted %d by policy: %s' % (
+                                write, k, cull_limit - k, problems[:3]), wit)
+                    finally:
+                        obs.close()
+                        cache.close()
+                        probe.set_clock(None)
+                        sc.drop(d)
 
 
 # ------------------------------------- a write fails INSIDE a block, the block handles it and commits
@@ -602,6 +648,7 @@ def run_shard(tier, seed, shard, nshards, res):
         unencodable(dc, sc, res, shard, nshards)
         expired_file_rows(dc, sc, res, shard, nshards)
         nested_failures_handled(dc, sc, res, shard, nshards)
+        mixed_culls(dc, sc, res, shard, nshards)
         rng = common.rng_for(seed, 'c08', shard)
         lock_timeouts(dc, sc, res, rng)
         probe.reset()
